@@ -68,7 +68,7 @@ func (p *P0x9208) Parse(jtMsg *jt808.JTMessage) error {
 	p.TcpPort = binary.BigEndian.Uint16(body[1+k : 1+k+2])
 	p.UdpPort = binary.BigEndian.Uint16(body[3+k : 3+k+2])
 	p.P9208AlarmSign.parse(body[5+k : sign+k-32]) // 报警标识长度随标准不同(16/38/40/32/39) 不是固定16
-	p.AlarmID = string(bytes.Trim(body[sign+k-32:sign+k], "\x00"))
+	p.AlarmID = string(bytes.TrimRight(body[sign+k-32:sign+k], "\x00"))
 	p.Reserve = body[sign+k:]
 	return nil
 }
